@@ -666,6 +666,14 @@ pub fn parallel_family(rep: &Reporter, only_store: Option<&str>) -> (u64, u64) {
         both!("key", "store.annotations().keys()".to_string(), store.annotations().keys(), render_key);
         both!("textselection", "store.annotations().textselections()".to_string(), store.annotations().textselections(), render_tsel);
         both!("annotation", "store.data().annotations()".to_string(), store.data().annotations(), render_ann);
+        // plain iterators with repeats (an adaptor may not assume that what it is given is free of duplicates or sorted)
+        both!("textselection", "store.annotations().flat_map(textselections)".to_string(), store.annotations().flat_map(|a| a.textselections()), render_tsel);
+        both!("data", "store.annotations().flat_map(data)".to_string(), store.annotations().flat_map(|a| a.data()), render_data);
+        both!("key", "store.annotations().flat_map(keys)".to_string(), store.annotations().flat_map(|a| a.keys()), render_key);
+        both!("resource", "store.annotations().flat_map(resources)".to_string(), store.annotations().flat_map(|a| a.resources()), render_res);
+        both!("dataset", "store.annotations().flat_map(datasets)".to_string(), store.annotations().flat_map(|a| a.datasets()), render_set);
+        both!("annotation", "store.data().flat_map(annotations)".to_string(), store.data().flat_map(|d| d.annotations()), render_ann);
+        both!("annotation", "store.resources().flat_map(annotations)".to_string(), store.resources().flat_map(|r| r.annotations()), render_ann);
         ncmp += k;
     }
     (nstores, ncmp)
